@@ -137,14 +137,16 @@ func VerifC13NamedPipe() {
 		err = n.Ingest(ctx, path, '\n', func(context.Context, string) error { calls++; return nil })
 		close(done)
 	}()
+	var w *verifrt.FifoWriter
 	switch state {
 	case 0: // no writer ever opens the pipe
 	case 1: // writer connected, pipe idle
-		verifrt.FifoOpenWriter(path)
+		w = verifrt.FifoOpenWriter(path)
 	case 2: // one record delivered, then idle with a half-written record pending
-		w := verifrt.FifoOpenWriter(path)
+		w = verifrt.FifoOpenWriter(path)
 		w.Write("a\nb")
 	}
+	defer verifrt.KeepOpen(w)
 	verifrt.Quiesce()
 	before := calls
 	cancel()
